@@ -105,7 +105,8 @@ def run_property(pid, prog, tier="quick", only_key=None):
         except Exception as e:  # a crash of a rule is a broken checker, never a verdict
             broken.append("%s: internal error %s: %s\n%s" % (r.rid, type(e).__name__, e, traceback.format_exc(limit=6)))
         n = len(out.items)
-        if n < r.floor and not any(b.startswith(r.rid + ":") for b in broken):
+        has_violation = any(i.verdict == VIOLATION for i in out.items)
+        if n < r.floor and not has_violation and not any(b.startswith(r.rid + ":") for b in broken):
             broken.append("%s: only %d instance(s) found, floor is %d (anchor moved or rule out of date)" % (r.rid, n, r.floor))
         stats.append({"rule": r.rid, "title": r.title, "instances": n, "floor": r.floor,
                       "holds": sum(1 for i in out.items if i.verdict == HOLDS),
